@@ -398,7 +398,7 @@ class File:
         :returns: The newly created block.
         :rtype: nixio.Block
         """
-        if copy_from:
+        if copy_from is not None:
             if not isinstance(copy_from, Block):
                 raise TypeError("Object to be copied is not a Block")
             clsname = "data"
